@@ -181,6 +181,29 @@ def m9():
 """)])
 
 
+def m7():
+    """conditionalize 'sanitises' its own array first: entries below the DEFAULT threshold are zeroed in place
+    (a parent built with eps_zero=1e-12 answers for other numbers after its first conditionalize)"""
+    edit(MD, [("""        ### calc new ps
+        # to extract specific columns from old ps, calculate ixgrid of numpy.
+""", """        self._ps[self._ps < 1e-8] = 0.0
+        ### calc new ps
+        # to extract specific columns from old ps, calculate ixgrid of numpy.
+""")])
+
+
+def m10():
+    """ProbDist.__getitem__ keeps the reshaped tensor in a class-level dict keyed by the shape"""
+    edit("quara/objects/prob_dist.py", [("""            target = self._ps.reshape(*self._shape)
+""", """            cache = ProbDist.__dict__.get("_T")
+            if cache is None:
+                cache = ProbDist._T = {}
+            if tuple(self._shape) not in cache:
+                cache[tuple(self._shape)] = self._ps.reshape(*self._shape)
+            target = cache[tuple(self._shape)]
+""")])
+
+
 if __name__ == "__main__":
     globals()[sys.argv[1]]()
     print("applied", sys.argv[1], "to", ROOT)
